@@ -136,6 +136,7 @@ let pc_op tok =
   | "X" -> PcSys.PDrop (ni p.(1))
   | "Z" -> PcSys.PSealLog
   | "V" -> PcSys.PStale (ni p.(1), ni p.(2), ni p.(3))
+  | "B" -> PcSys.PSealLog      (* harness-only read of real datagram bytes: no model counterpart (canonicalised away) *)
   | "Q" -> PcSys.PQuery (ni p.(1))
   | "L" -> PcSys.PLast (ni p.(1), ni p.(2), n_of_int (match p.(3) with "i" -> 0 | "r" -> 1 | "d" -> 2 | _ -> 3), ni p.(4))
   | _ -> failwith "bad pc op"
@@ -185,7 +186,14 @@ let pc_out = function
 
 let pc_scenario a =
   let (_, outs) = PcSys.prun PcSys.always_ok PcSys.pst0 (L.map pc_op a) in
-  S.concat " " (L.map pc_out outs)
+  (* B.<k>.<hex> is a harness-only op: the real bytes of datagram k of the implementation's run, handed to the model line
+     as an oracle value (the symbolic model has no signature bytes).  The model does nothing with it; it is echoed so that
+     the oracle sees the same token on both sides. *)
+  S.concat " " (L.map2 (fun tok o ->
+      match split '.' tok with
+      | "B" :: _ :: hx :: _ -> "b" ^ hx
+      | "B" :: _ -> "-"
+      | _ -> pc_out o) a outs)
 
 (* ---- NodeInfo codec ---------------------------------------------------------------------- *)
 let addrs_str l = if l = [] then "-" else S.concat "," (L.map hex l)
@@ -340,7 +348,16 @@ let node_out (dsts : int list ref) = function
 
 let node_scenario a =
   let (_, outs) = NodeSys.srun NodeSys.sys0 (L.map node_op a) in
-  S.concat " " (L.map (node_out (ref [])) outs)
+  let r = ref [] in
+  (* J.<k>.<dst>.<src>.zc : the harness (which has the real bytes) found that a truncation removed only zero bytes of a genuine
+     handshake datagram, i.e. the parser saw the complete message (finding F11); the model runs the verbatim injection and
+     echoes the marker so that both sides print the same token *)
+  S.concat " " (L.map2 (fun tok o ->
+      let body = fst (split_once '@' tok) in
+      let s = node_out r o in
+      match L.rev (split '.' body) with
+      | "zc" :: _ when String.length body > 0 && body.[0] = 'J' -> "zc~" ^ s
+      | _ -> s) a outs)
 
 
 (* ---- C20: configuration merging ---- *)
